@@ -5,6 +5,7 @@
 import Lean.Data.Json
 import Driver.Util
 import Driver.C18
+import Driver.C20
 import Driver.C01
 import Driver.C02
 import Driver.C04
@@ -19,6 +20,7 @@ def handle (j : Json) : Json :=
   match j.getObjValAs? String "p" with
   | .ok "ping" => Json.mkObj [("pong", true)]
   | .ok "C18" => C18.handle j
+  | .ok "C20" => C20.handle j
   | .ok "C01" => C01.handle j
   | .ok "C02" => C02.handle j
   | .ok "C04" => C04.handle j
